@@ -64,6 +64,10 @@ CHECKS = {
    text="Generated instances of SM2/SM9/PKCS#8 operations (success and error paths) and of all three handshakes on both roles (success, untrusted server, rejected client) plus application data; any occurrence of a private scalar, nonce, password, plaintext, pre-master/master secret, key block, TLS 1.3 IV or 32-byte/>=40-byte entropy draw in the output is a violation. Exploration of the catalogue, not of all code paths.",
    note="Default build configuration only. TLS 1.3 raw traffic keys are not stored in TLS_CONNECT (only their key schedule), they are covered through the IVs printed next to them. Windows with < 4 distinct byte values are ignored.",
    design="4/C19"),
+ "C18": dict(level="fault_enumeration", technique="entropy-source fault injection through a getentropy() interposer: for every randomised operation and every draw index the draw is made to fail; paired runs on equal / different streams; metamorphic dependency analysis of handshake transcripts (records that change when the stream changes from draw i on); repetition histories for nonce reuse",
+   text="Catalogue of 17 library operations and the 6 handshake endpoints x auth modes, with generated inputs: same stream => identical output, other stream => different output, EVERY draw index failing => the operation reports failure and (handshakes) sends no non-alert record that depends on draws >= i. Complete over the draw indices of each generated instance; sampled over inputs.",
+   note="Trusted: the interposer (per-thread deterministic streams, verified active at start). getentropy() is assumed to be the only entropy source of the build.",
+   design="4/C18"),
 }
 
 NOT_YET = {
